@@ -6,11 +6,11 @@ import subprocess
 
 import vlib
 
-RULE = ("StringEnum.tla holds the Matrix specification's spellings for 26 core enums (membership, join rules, history visibility, guest "
+RULE = ("StringEnum.tla holds the Matrix specification's spellings for 60 enums (membership, join rules, history visibility, guest "
         "access, message / event types of every event kind, algorithms, rule kinds, presence, receipt types, tags, relations, cancel "
-        "codes, room versions ...) and the laws (lossless, alias -> declared variant, specified spelling -> dedicated variant, "
+        "codes, verification methods, predefined rule IDs, VoIP, secrets, enums of the API crates ...), the documented alias targets, and the laws (lossless, alias -> declared variant and documented alias -> its canonical spelling, specified spelling -> dedicated variant, "
         "idempotent, Display = Serialize = Deserialize = From<String>, Eq/Ord/PartialOrd agree with the string form). The harness "
-        "converts, for each of 32 enum types, every specified spelling, 13 near-misses of each (case, prefix, suffix, one-character "
+        "converts, for each of 46 enum types of ruma-common / ruma-events / ruma-state-res and 18 of the API crates, every specified spelling, 13 near-misses of each (case, prefix, suffix, one-character "
         "edits), every alias declared anywhere in the sources, wildcard event types with dotted suffixes, and random Unicode "
         "strings, plus all pairs of a base set for order/equality; Trace_C19 judges every record. Non-trivial = conversions of "
         "specified spellings, aliases, wildcard types, and all pairs.")
